@@ -22,8 +22,9 @@
 (* math.Float64bits of the results.                                        *)
 (*                                                                         *)
 (* Parameters (C13Params): FloatMants, FloatExps (unary grid), FloatMants2,*)
-(* FloatExps2 (binary grid, mantissas < 2^14), FloatLdexp (exponent        *)
-(* arguments), FloatFns.  Output: c13_float.<fn>.<part>.ndjson             *)
+(* FloatExps2 (binary grid, mantissas < 2^14; FloatMants2Y: mantissas of   *)
+(* the second argument), FloatLdexp (exponent arguments), FloatFns.        *)
+(* Output: c13_float.<fn>.<part>.ndjson                                    *)
 (***************************************************************************)
 EXTENDS FloatGrid, C13Params, FiniteSets, Json, CSV, SequencesExt
 
@@ -31,6 +32,8 @@ Specials == {NaN, Inf(0), Inf(1), Zero0(0), Zero0(1)}
 FinOf(ms, es) == {v \in {<<"fin", s, m, e>> : s \in {0, 1}, m \in ms, e \in es} : Representable(v)}
 UGrid == Specials \cup FinOf(Range(FloatMants), Range(FloatExps))
 BGrid == Specials \cup FinOf(Range(FloatMants2), Range(FloatExps2))
+\* second arguments of the binary functions (a subset of BGrid in the quick tier)
+YGrid == Specials \cup FinOf(Range(FloatMants2Y), Range(FloatExps2))
 
 Fns == Range(FloatFns)
 Binary == {"Max", "Min", "Dim", "Mod", "Remainder", "Copysign"}
@@ -55,12 +58,12 @@ Cases(fn, x) ==
     [] fn = "Float32bits" -> IF Rep32(x) THEN {<<<<x>>, <<Pat32(x)>>>>} ELSE {}
     \* the float32 value converted to float64 is the same number: second slot = its binary64 pattern
     [] fn = "Float32frombits" -> IF Rep32(x) THEN {<<<<x>>, <<Pat32(x), Pat(x)>>>>} ELSE {}
-    [] fn = "Max" -> {<<<<x, y>>, <<Pat(FMax(x, y))>>>> : y \in BGrid}
-    [] fn = "Min" -> {<<<<x, y>>, <<Pat(FMin(x, y))>>>> : y \in BGrid}
-    [] fn = "Dim" -> {<<<<x, y>>, <<Pat(Dim(x, y))>>>> : y \in {z \in BGrid : Dim(x, z) # Skip}}
-    [] fn = "Mod" -> {<<<<x, y>>, <<Pat(Mod(x, y))>>>> : y \in BGrid}
-    [] fn = "Remainder" -> {<<<<x, y>>, <<Pat(Remainder(x, y))>>>> : y \in BGrid}
-    [] fn = "Copysign" -> {<<<<x, y>>, <<Pat(Copysign(x, y))>>>> : y \in BGrid \ {NaN}}
+    [] fn = "Max" -> {<<<<x, y>>, <<Pat(FMax(x, y))>>>> : y \in YGrid}
+    [] fn = "Min" -> {<<<<x, y>>, <<Pat(FMin(x, y))>>>> : y \in YGrid}
+    [] fn = "Dim" -> {<<<<x, y>>, <<Pat(Dim(x, y))>>>> : y \in {z \in YGrid : Dim(x, z) # Skip}}
+    [] fn = "Mod" -> {<<<<x, y>>, <<Pat(Mod(x, y))>>>> : y \in YGrid}
+    [] fn = "Remainder" -> {<<<<x, y>>, <<Pat(Remainder(x, y))>>>> : y \in YGrid}
+    [] fn = "Copysign" -> {<<<<x, y>>, <<Pat(Copysign(x, y))>>>> : y \in YGrid \ {NaN}}
 
 FirstArgs(fn) == IF fn \in Binary THEN BGrid ELSE UGrid
 
@@ -136,7 +139,7 @@ Spec == Init /\ [][Next]_vars
 
 Sane == row # NoRow =>
           /\ (unit[1] = "sane1" => SaneUnary(row))
-          /\ (unit[1] = "sane2" => \A y \in BGrid : SaneBinary(row, y))
+          /\ (unit[1] = "sane2" => \A y \in YGrid : SaneBinary(row, y) /\ SaneBinary(y, row))
 
 Recs(fn, x) == LET cs == SetToSeq(Cases(fn, x)) IN [i \in 1..Len(cs) |-> <<fn, cs[i][1], cs[i][2]>>]
 Emit == unit[1] \notin {"sane1", "sane2"} /\ row # NoRow /\ Cases(unit[1], row) # {} =>
